@@ -2,11 +2,131 @@
 package main
 
 import (
+	"bytes"
+	"errors"
+	"fmt"
+	"math/rand"
 	"os"
 
+	"github.com/btcsuite/btcd/btcutil"
+	"github.com/btcsuite/btcwallet/waddrmgr"
+
 	"verif/internal/evid"
+	"verif/internal/fakechain"
 	"verif/internal/mgr"
+	"verif/internal/oracle"
+	"verif/internal/wh"
 )
+
+// walletConvert drives the WALLET-level conversion path (Wallet.InitAccounts
+// with watchOnly=true is the wallet's only caller of ConvertToWatchingOnly)
+// over different account histories, reopens the wallet and demands the
+// watching-only guarantees plus a clean file image.
+func walletConvert(r *evid.Run, dir string, cs int64) {
+	rg := rand.New(rand.NewSource(cs))
+	params := wh.Params(5)
+	ch := fakechain.New(params)
+	for i := 0; i < 3; i++ {
+		ch.Extend()
+	}
+	h, err := wh.New(rg, dir, params, nil, ch, ch.BlockAt(1).Header.Timestamp)
+	if err != nil {
+		r.Inconclusive("harness: " + err.Error())
+		return
+	}
+	defer h.Close()
+	if err := h.Open(0, true); err != nil {
+		if errors.Is(err, wh.ErrNotSynced) {
+			r.Inconclusive("sync watchdog")
+			return
+		}
+		r.Violation("c04:harness-setup", err.Error(), "walletconvert", cs, nil)
+		return
+	}
+	scope := []waddrmgr.KeyScope{waddrmgr.KeyScopeBIP0084, waddrmgr.KeyScopeBIP0086, waddrmgr.KeyScopeBIP0044}[rg.Intn(3)]
+	sm, _ := h.W.Manager.FetchScopedKeyManager(scope)
+	var log []string
+	fail := func(key, what string) {
+		r.Violation(key, what, "walletconvert", cs, map[string]any{"steps": log, "what": what})
+	}
+	k1 := uint32(rg.Intn(4))
+	if rg.Intn(3) != 0 {
+		if err := h.W.InitAccounts(sm, false, k1); err != nil {
+			fail("c04:initaccounts", err.Error())
+			return
+		}
+		log = append(log, fmt.Sprintf("InitAccounts(%v, watchOnly=false, %d)", scope, k1))
+	} else {
+		k1 = 0
+	}
+	var addrs []btcutil.Address
+	for i := 0; i < 2+rg.Intn(4); i++ {
+		a, err := h.W.NewAddress(uint32(rg.Intn(int(k1)+1)), scope)
+		if err != nil {
+			fail("c04:newaddress", err.Error())
+			return
+		}
+		addrs = append(addrs, a)
+	}
+	log = append(log, fmt.Sprintf("issued %d addresses", len(addrs)))
+	// secrets the harness can name independently: seed-derived keys of account 0 and the first addresses
+	sc := mgr.NewScanner()
+	sc.Add(true, "seed", h.Seed)
+	sc.Add(true, "root-xprv", []byte(h.Root.String()))
+	sc.Add(true, "privpass", []byte("priv-is-too-short-to-scan"))
+	leg, _, _, err := oracle.AccountKey(h.Seed, scope.Purpose, scope.Coin, 0)
+	if err == nil {
+		sc.Add(true, "acct-key", leg.Key[:])
+		for br := uint32(0); br < 2; br++ {
+			bk, _ := leg.Child(br, false)
+			for i := uint32(0); i < 8; i++ {
+				if ck, err := bk.Child(i, false); err == nil {
+					sc.Add(true, fmt.Sprintf("addr-priv %d/%d", br, i), ck.Key[:])
+				}
+			}
+		}
+	}
+	k2 := []uint32{0, k1, k1 + 1, k1 + 2}[rg.Intn(4)]
+	if err := h.W.InitAccounts(sm, true, k2); err != nil {
+		fail("c04:initaccounts-convert", err.Error())
+		return
+	}
+	log = append(log, fmt.Sprintf("InitAccounts(%v, watchOnly=TRUE, %d)  (highest existing account %d)", scope, k2, k1))
+	h.Stop()
+	if err := h.Open(0, false); err != nil {
+		fail("c04:reopen-after-conversion", err.Error())
+		return
+	}
+	log = append(log, "stop + reopen")
+	if !h.W.Manager.WatchOnly() {
+		fail("c04:not-watch-only-after-restart", "the wallet was converted to watching-only (InitAccounts returned nil) but after a restart it is not watching-only")
+		return
+	}
+	if err := h.W.Unlock(h.PrivPass, nil); err == nil {
+		fail("c04:unlock-after-conversion", "the private passphrase unlocks a wallet that was converted to watching-only")
+		return
+	}
+	for _, a := range addrs {
+		ok, err := h.W.HaveAddress(a)
+		if err != nil || !ok {
+			fail("c04:address-forgotten-by-conversion", fmt.Sprintf("address %v is no longer known after conversion (%v)", a, err))
+			return
+		}
+		if k, err := h.W.PrivKeyForAddress(a); err == nil || k != nil {
+			fail("c04:private-key-after-conversion", fmt.Sprintf("PrivKeyForAddress(%v) returns a key after conversion", a))
+			return
+		}
+	}
+	var img bytes.Buffer
+	if err := h.DB.Copy(&img); err == nil {
+		if d := sc.Scan(img.Bytes(), "database file image after conversion"); d != nil {
+			fail(d.Key, d.What)
+			return
+		}
+	}
+	r.Hit("c04-wallet-level-conversions-checked", 1)
+	r.Case(fmt.Sprint("walletconvert", log), true)
+}
 
 const P = "C04"
 
@@ -24,6 +144,8 @@ func main() {
 		res := mgr.RunHistory(cfg, cs, dir)
 		mgr.Record(r, res, "history", cs, res.Stats["c04-secret-patterns"] >= 30 && res.Stats["c04-images-scanned"] >= 10)
 	})
+	r.Parallel("walletconvert", r.N(16, 300), evid.Workers(), func(i int, cs int64) { walletConvert(r, dir, cs) })
+	r.Require("c04-wallet-level-conversions-checked", 10)
 	r.Require("c04-images-scanned", 500)
 	r.Require("c04-writes-scanned", 5000)
 	r.Require("c04-secret-patterns", 3000)
